@@ -62,7 +62,9 @@ partial def firstDiff (a b : PTree) (path : String) : String :=
 
 /-- every user leaf (outside list / unchecked sections, last duplicate wins) carries the user's value in the result -/
 partial def userLeavesKept (u r d : PTree) : Bool :=
-  if d.hasAttr "list" || d.hasAttr "unchecked" || u.hasAttr "unchecked" then true else
+  -- a DECLARED unchecked section carries the user's content as it is
+  if d.hasAttr "unchecked" then u.children.all fun uc => r.children.any fun rc => rc.name == uc.name && rc.value == uc.value else
+  if d.hasAttr "list" then true else
   u.children.all fun uc =>
     match getLast u.children uc.name, getLast r.children uc.name, getLast d.children uc.name with
     | some ul, some rc, some dc => if ul.children.isEmpty && dc.children.isEmpty then rc.value == ul.value else userLeavesKept ul rc dc
@@ -80,7 +82,7 @@ partial def defaultsInjected (r : PTree) : Bool :=
 
 /-- does the user tree name something the description does not declare (outside unchecked)? -/
 partial def hasUnknown (u d : PTree) : Bool :=
-  if u.hasAttr "unchecked" then false else
+  if d.hasAttr "unchecked" then false else
   u.children.any fun c => match getLast d.children c.name with
     | some dc => hasUnknown c dc
     | none => true
